@@ -30,6 +30,12 @@ func TestVerif(t *testing.T) {
 		sc := GenScenario(os.Getenv("VERIF_PROP"), envU64("VERIF_SEED", 1), "quick")
 		sc.Save("/dev/stdout")
 		os.Exit(0)
+	case "goldengen":
+		if err := WriteGolden(os.Getenv("VERIF_GOLDEN_DIR"), os.Getenv("VERIF_GOLDEN_PROVENANCE")); err != nil {
+			fmt.Println("goldengen:", err)
+			os.Exit(2)
+		}
+		os.Exit(0)
 	case "selftest":
 		os.Exit(selftestMain(t))
 	default:
